@@ -23,7 +23,7 @@
 From Coq Require Import ZArith QArith NArith String Ascii Bool Lia List.
 Import ListNotations.
 From TP Require Import Base.PyVal Base.PyOps Base.PyOps2 Base.PyOpsVersioned Ser.Versioned Ser.VersionedProofs
-     Gen.VersionedSrc.
+     Gen.VersionedShape Gen.VersionedSrc.
 Local Open Scope Z_scope.
 
 (* ------------------------------------------------------------------ how the model's inputs are seen by the source *)
@@ -531,8 +531,12 @@ Section Convert.
 
   (* ---------------------------------------------------------------- convert_dict *)
 
-  (* + and - on a float / Decimal / opaque version are not what the hand model describes (it says TypeError,
-     CPython computes e.g. 1.5 + 1 = 2.5): the version entry, when present, is anything else *)
+  (* the hand model of convert_dict is parametrised by the four integer literals of the source; the theorems are
+     stated at the literals re-read from the source on this run (Gen/VersionedShape.v) *)
+  Notation cdp := gen_cd_params.
+
+  (* the start version feeds `- 1` and a slice bound: on a float the source's subtraction may round (the operator
+     declines), on a Decimal / opaque object the operators decline; the hand model says TypeError for all of them *)
   Definition plain_version_val (v : option pyval) : bool :=
     match v with
     | Some (PNum (NFlt _ _)) | Some (PNum (NDec _ _))
@@ -541,24 +545,61 @@ Section Convert.
     end.
   Definition plain_version (d : dict) : bool := plain_version_val (dict_get d version_key).
 
+  (* a version met by `+ 1` during the run: ints, bools, floats (exact sum, else both sides decline), Decimals
+     (both decline), str / None / containers (TypeError on both sides) agree; only an opaque object does not *)
+  Definition version_not_object_val (v : option pyval) : bool :=
+    match v with
+    | Some (PEnum _ _ _) | Some (PStruct _ _) | Some (POther _ _) => false
+    | _ => true
+    end.
+  Definition version_not_object (d : dict) : bool := version_not_object_val (dict_get d version_key).
+
   Lemma has_version_plain d z : has_version d z -> plain_version d = true.
   Proof. unfold has_version, plain_version. intros H. rewrite H. reflexivity. Qed.
 
-  Lemma src_bump d :
-    plain_version d = true ->
-    (t12 <- py_dict_get (PDict d) (PStr (s2p "version")) (zint 0) ;;
-     t13 <- py_add t12 (zint 1) ;;
-     t14 <- py_setitem (PDict d) (PStr (s2p "version")) t13 ;; Ok t14) = enc_res (bump_version d).
+  Lemma plain_not_object d : plain_version d = true -> version_not_object d = true.
   Proof.
-    unfold plain_version, bump_version, version_key. rewrite dict_get_str. cbn [bind].
-    destruct (dict_get d (PStr (s2p "version"))) as [[|b|[z|m e|m e]|s|l|l|l|fr l|kv|c n y|c at'|tg r]|];
-      cbn [plain_version_val]; intros Hp; try discriminate Hp; reflexivity.
+    unfold plain_version, version_not_object.
+    destruct (dict_get d version_key) as [[|b|[z|m e|m e]|s|l|l|l|fr l|kv|c n y|c at'|tg r]|]; intros H;
+      try discriminate H; reflexivity.
   Qed.
 
-  Lemma bump_plain d d' : bump_version d = Ok d' -> plain_version d' = true.
+  (* the operator's exact float + int is the hand model's *)
+  Lemma float_add_hand m e :
+    float_add_int m e 1 =
+    match Versioned.flt_add_int m e (cd_bump_inc cdp) with
+    | Some (m', e') => Ok (PNum (NFlt m' e'))
+    | None => Raise Unmodelled
+    end.
   Proof.
-    unfold bump_version, plain_version, version_key.
+    change (cd_bump_inc cdp) with 1.
+    unfold float_add_int, Versioned.flt_add_int. change (Z.abs 1 <? two53) with true. cbn iota.
+    destruct (e <? 0); unfold float_norm, flt_norm;
+      match goal with
+      | |- match ?x with _ => _ end = _ =>
+          destruct x as [|q|q]; [reflexivity | cbv zeta; destruct (_ <? _); reflexivity ..]
+      end.
+  Qed.
+
+  Lemma src_bump d :
+    version_not_object d = true ->
+    (t12 <- py_dict_get (PDict d) (PStr (s2p "version")) (zint 0) ;;
+     t13 <- py_add t12 (zint 1) ;;
+     t14 <- py_setitem (PDict d) (PStr (s2p "version")) t13 ;; Ok t14) = enc_res (bump_version cdp d).
+  Proof.
+    unfold version_not_object, bump_version, version_key. rewrite dict_get_str. cbn [bind].
     destruct (dict_get d (PStr (s2p "version"))) as [[|b|[z|m e|m e]|s|l|l|l|fr l|kv|c n y|c at'|tg r]|];
+      cbn [version_not_object_val]; intros Hp; try discriminate Hp; try reflexivity.
+    change (py_add (PNum (NFlt m e)) (zint 1)) with (float_add_int m e 1).
+    rewrite float_add_hand.
+    destruct (Versioned.flt_add_int m e (cd_bump_inc cdp)) as [[m' e']|]; reflexivity.
+  Qed.
+
+  Lemma bump_not_object d d' : bump_version cdp d = Ok d' -> version_not_object d' = true.
+  Proof.
+    unfold bump_version, version_not_object, version_key.
+    destruct (dict_get d (PStr (s2p "version"))) as [[|b|[z|m e|m e]|s|l|l|l|fr l|kv|c n y|c at'|tg r]|];
+      try (destruct (Versioned.flt_add_int m e (cd_bump_inc cdp)) as [[m' e']|]);
       intros H; inversion H; subst; rewrite dict_get_set_same; reflexivity.
   Qed.
 
@@ -579,17 +620,19 @@ Section Convert.
       apply skipn_map.
     - destruct (Z.leb_spec 0 z) as [_|Hz']; [|lia].
       rewrite firstn_all2 by (rewrite skipn_length, map_length; lia).
-      rewrite <- (map_length g l). rewrite skipn_min. apply skipn_map.
+      rewrite skipn_map. rewrite skipn_min.
+      destruct (Z.leb_spec (Z.of_nat (length l)) z) as [Hl|Hl]; [|reflexivity].
+      rewrite skipn_all2 by lia. reflexivity.
   Qed.
 
   (* one version step of the hand model, on a document *)
-  Definition hstep (d : dict) (m : mapping) : res dict := d' <- convert fn m d ;; bump_version d'.
+  Definition hstep (d : dict) (m : mapping) : res dict := d' <- convert fn m d ;; bump_version cdp d'.
 
-  Lemma fold_left_step l : forall d, fold_left (step fn) l (Ok d) = foldM hstep l d.
+  Lemma fold_left_step l : forall d, fold_left (step fn cdp) l (Ok d) = foldM hstep l d.
   Proof.
     induction l as [|m t IH]; intros d; [reflexivity|].
-    cbn [fold_left foldM]. change (step fn (Ok d) m) with (hstep d m).
-    destruct (hstep d m) as [d'|e]; cbn [bind]; [apply IH|apply fold_step_raise].
+    cbn [fold_left foldM]. change (step fn cdp (Ok d) m) with (hstep d m).
+    destruct (hstep d m) as [d'|e]; cbn [bind]; [apply IH|apply (fold_step_raise fn cdp)].
   Qed.
 
   Lemma bind_ret {A} (r : res A) : (v <- r ;; Ok v) = r.
@@ -599,7 +642,9 @@ Section Convert.
   Proof. reflexivity. Qed.
 
   Lemma forallb_slice_from {A} (P : A -> bool) l i : forallb P l = true -> forallb P (py_slice_from l i) = true.
-  Proof. intros H. unfold py_slice_from. destruct (0 <=? i); apply forallb_skipn; exact H. Qed.
+  Proof.
+    intros H. unfold py_slice_from. destruct (0 <=? i); [destruct (_ <=? i); [reflexivity|]|]; apply forallb_skipn; exact H.
+  Qed.
 
   (* a loop simulation whose invariant may speak about the items still to come *)
   Lemma foldM_sim_rest {A B} (enc_a : A -> B) (I : list A -> dict -> Prop)
@@ -619,50 +664,50 @@ Section Convert.
     apply IH; [apply Hinv; reflexivity | apply Hp2; reflexivity].
   Qed.
 
-  (* every version value that the hand model's run meets before a `+ 1` is plain *)
+  (* no version value that the hand model's run meets before a `+ 1` is an opaque object *)
   Fixpoint versions_plain (l : list mapping) (d : dict) : bool :=
     match l with
     | [] => true
     | m :: t =>
         match convert fn m d with
-        | Ok d' => plain_version d' &&
-                   match bump_version d' with Ok d'' => versions_plain t d'' | Raise _ => true end
+        | Ok d' => version_not_object d' &&
+                   match bump_version cdp d' with Ok d'' => versions_plain t d'' | Raise _ => true end
         | Raise _ => true
         end
     end.
 
   Definition versions_plain_dict (d : dict) (maps : list mapping) : bool :=
     plain_version d &&
-    match start_index d with Ok i => versions_plain (py_slice_from maps i) d | Raise _ => true end.
+    match start_index cdp d with Ok i => versions_plain (py_slice_from maps i) d | Raise _ => true end.
 
   (* mappings that leave "version" alone (the hypothesis of the C17 theorems) never meet anything else *)
   Lemma keeps_versions_plain : forall l d,
-      forallb keeps_version l = true -> plain_version d = true -> versions_plain l d = true.
+      forallb keeps_version l = true -> version_not_object d = true -> versions_plain l d = true.
   Proof.
     induction l as [|m t IH]; intros d Hk Hp; [reflexivity|].
     cbn [forallb versions_plain] in *. apply andb_true_iff in Hk. destruct Hk as [Hm Hk].
     destruct (convert fn m d) as [d'|e] eqn:Ec; [|reflexivity].
-    assert (Hpd : plain_version d' = true)
-      by (unfold plain_version in *; rewrite (convert_keeps fn m d d' Hm Ec); exact Hp).
+    assert (Hpd : version_not_object d' = true)
+      by (unfold version_not_object in *; rewrite (convert_keeps fn m d d' Hm Ec); exact Hp).
     rewrite Hpd. cbn [andb].
-    destruct (bump_version d') as [d''|e] eqn:Eb; [|reflexivity].
-    apply IH; [exact Hk | exact (bump_plain _ _ Eb)].
+    destruct (bump_version cdp d') as [d''|e] eqn:Eb; [|reflexivity].
+    apply IH; [exact Hk | exact (bump_not_object _ _ Eb)].
   Qed.
 
   Lemma keeps_versions_plain_dict d maps :
     forallb keeps_version maps = true -> plain_version d = true -> versions_plain_dict d maps = true.
   Proof.
     intros Hk Hp. unfold versions_plain_dict. rewrite Hp. cbn [andb].
-    destruct (start_index d) as [i|e]; [|reflexivity].
-    apply keeps_versions_plain; [apply forallb_slice_from; exact Hk | exact Hp].
+    destruct (start_index cdp d) as [i|e]; [|reflexivity].
+    apply keeps_versions_plain; [apply forallb_slice_from; exact Hk | apply plain_not_object; exact Hp].
   Qed.
 
   (* convert_dict(the_dict, versions_mapping) *)
   Theorem src_convert_dict_gen : forall d maps,
       forallb mapping_ok maps = true ->
       versions_plain_dict d maps = true ->
-      predicted (convert_dict fn d maps) = true ->
-      Src_convert_dict call (PDict d) (enc_maps maps) = enc_res (convert_dict fn d maps).
+      predicted (convert_dict fn cdp d maps) = true ->
+      Src_convert_dict call (PDict d) (enc_maps maps) = enc_res (convert_dict fn cdp d maps).
   Proof.
     intros d maps Hok Hvp Hp.
     unfold versions_plain_dict in Hvp. apply andb_true_iff in Hvp. destruct Hvp as [Hplain Hvp].
@@ -700,8 +745,8 @@ Section Convert.
       forallb mapping_ok maps = true ->
       forallb keeps_version maps = true ->
       plain_version d = true ->
-      predicted (convert_dict fn d maps) = true ->
-      Src_convert_dict call (PDict d) (enc_maps maps) = enc_res (convert_dict fn d maps).
+      predicted (convert_dict fn cdp d maps) = true ->
+      Src_convert_dict call (PDict d) (enc_maps maps) = enc_res (convert_dict fn cdp d maps).
   Proof.
     intros d maps Hok Hkeep Hplain Hp.
     apply src_convert_dict_gen; [exact Hok | apply keeps_versions_plain_dict; assumption | exact Hp].
@@ -723,7 +768,7 @@ Definition src_ex_doc : dict :=
 Example src_side_conditions_satisfiable :
   forallb mapping_ok src_ex_maps = true /\ forallb keeps_version src_ex_maps = true /\
   plain_version src_ex_doc = true /\ versions_plain_dict std_fn src_ex_doc src_ex_maps = true /\
-  predicted (convert_dict std_fn src_ex_doc src_ex_maps) = true /\
+  predicted (convert_dict std_fn gen_cd_params src_ex_doc src_ex_maps) = true /\
   exists d', Src_convert_dict (call_of std_fn) (PDict src_ex_doc) (enc_maps src_ex_maps) = Ok (PDict d') /\
              dict_get d' (PStr (s2p "version")) = Some (PNum (NInt 3)) /\
              dict_get d' (PStr (s2p "name")) = Some (PStr (s2p "joe")).
@@ -734,15 +779,27 @@ Qed.
 
 (* ------------------------------------------------------------------ where the source and the hand model part *)
 
-(* DISAGREEMENT (the hand model is wrong, CPython follows the source): a mapping that sets "version" to a float.
-   typedpy: convert_dict({}, [{"version": Constant(1.5)}]) == {"version": 2.5}; the hand model's bump_version
-   answers TypeError.  Outside the hypotheses of C17 (keeps_version), excluded above by [versions_plain]. *)
-Example src_hand_disagree_float_version :
+(* a mapping that sets "version" to a float: typedpy gives convert_dict({}, [{"version": Constant(1.5)}]) ==
+   {"version": 2.5}; the source translation and the hand model (exact float + int) both say so *)
+Example src_float_version_agrees :
   let maps := [ [ (s2p "version", MConst (PNum (NFlt 3 (-1)))) ] ] in
   Src_convert_dict (call_of std_fn) (PDict []) (enc_maps maps)
   = Ok (PDict [ (PStr (s2p "version"), PNum (NFlt 5 (-1))) ])
-  /\ convert_dict std_fn [] maps = Raise TypeError
-  /\ versions_plain_dict std_fn [] maps = false.
+  /\ convert_dict std_fn gen_cd_params [] maps = Ok [ (PStr (s2p "version"), PNum (NFlt 5 (-1))) ]
+  /\ versions_plain_dict std_fn [] maps = true.
+Proof. vm_compute. repeat split; reflexivity. Qed.
+
+(* the source literals are today the pinned ones *)
+Example gen_cd_params_pinned : gen_cd_params = std_cd_params.
+Proof. reflexivity. Qed.
+
+(* a START version that is a float: CPython raises TypeError (slice index), the hand model says so, the operators
+   subtract exactly when no rounding is needed and then agree; [plain_version] leaves the case out *)
+Example start_float_version :
+  let d := [ (PStr (s2p "version"), PNum (NFlt 3 (-1))) ] in
+  plain_version d = false /\
+  Src_convert_dict (call_of std_fn) (PDict d) (enc_maps []) = Raise TypeError /\
+  convert_dict std_fn gen_cd_params d [] = Raise TypeError.
 Proof. vm_compute. repeat split; reflexivity. Qed.
 
 (* the hand model DECLINES on a non-dict reached through a "<field>._mapper" key ([predicted] = false); the source
@@ -772,4 +829,4 @@ Print Assumptions keeps_versions_plain_dict.
 Print Assumptions src_convert_dict_gen.
 Print Assumptions src_convert_dict.
 Print Assumptions src_side_conditions_satisfiable.
-Print Assumptions src_hand_disagree_float_version.
+Print Assumptions src_float_version_agrees.
